@@ -779,11 +779,13 @@ func (b *bitstream) readDecimal(length uint64) (*Decimal, error) {
 	}
 
 	if length > 0 {
-		if err := b.readBigInt(length, coef); err != nil {
+		neg, err := b.readSignedBigInt(length, coef)
+		if err != nil {
 			return nil, err
 		}
 
-		negZero = coef.Sign() == 0
+		// A zero coefficient is negative zero only if its sign bit is set.
+		negZero = neg && coef.Sign() == 0
 	}
 
 	return NewDecimal(coef, int32(exp), negZero), nil
@@ -869,9 +871,16 @@ func (b *bitstream) clear() {
 // ReadBigInt reads a fixed-length integer of the given length and stores
 // the value in the given big.Int.
 func (b *bitstream) readBigInt(length uint64, ret *big.Int) error {
+	_, err := b.readSignedBigInt(length, ret)
+	return err
+}
+
+// ReadSignedBigInt reads a fixed-length Int like readBigInt and also returns
+// its sign bit, which ret cannot carry when the magnitude is zero.
+func (b *bitstream) readSignedBigInt(length uint64, ret *big.Int) (bool, error) {
 	bs, err := b.readN(length)
 	if err != nil {
-		return err
+		return false, err
 	}
 
 	neg := bs[0]&0x80 != 0
@@ -885,7 +894,7 @@ func (b *bitstream) readBigInt(length uint64, ret *big.Int) error {
 		ret.Neg(ret)
 	}
 
-	return nil
+	return neg, nil
 }
 
 // ReadVarUint reads a variable-length-encoded uint.
